@@ -266,6 +266,6 @@ theorem bc_getRandom_zero_weight_witness :
 
 /-- non-vacuity: a positive draw on the same container -/
 example : (((BC.empty.insert 3 0).1.insert 1 2).1).pick 1 = some 1 := by
-  simp [BC.insert, BC.empty, BC.growMap, BC.pick, BC.pickLoop]; norm_num
+  simp [BC.insert, BC.empty, BC.growMap, BC.pick, BC.pickLoop]
 
 end Qmc.C03
